@@ -67,6 +67,88 @@ def listing(body, extra_state=()):
     first_def = {}
     idx = {b: i for i, b in enumerate(body.rpo())}
     sl = list(state_locals(body)) + [l for l in extra_state]
+    # A *named* single-assignment local whose defining expression reads a state variable captures that variable's value
+    # at its definition point; expanding it at a later use (after the state variable changed) would be unsound, so such
+    # locals become state variables themselves (shown as an assignment where they are defined). Compiler temporaries are
+    # consumed within the statement that creates them and stay expanded.
+    def _mentions(obj, l):
+        if isinstance(obj, dict):
+            if obj.get("l") == l and "p" in obj:
+                return True
+            return any(_mentions(v, l) for v in obj.values())
+        if isinstance(obj, list):
+            return any(_mentions(v, l) for v in obj)
+        return False
+
+    def use_sites(l):
+        out = set()
+        for bi in reach:
+            blk = body.blocks[bi]
+            if blk["cleanup"]:
+                continue
+            for i, st in enumerate(blk["s"]):
+                if st["k"] == "assign" and (_mentions(st["rv"], l) or (st["pl"]["l"] == l and st["pl"]["p"]) or _mentions(st["pl"]["p"], l)):
+                    out.add((bi, i))
+            t = blk["t"]
+            if _mentions({k: v for k, v in t.items() if k != "dest"}, l):
+                out.add((bi, len(blk["s"])))
+        return out
+
+    def def_sites(l):
+        out = set()
+        for (bi, si, kind, pay) in body.defs().get(l, []):
+            if bi in reach and not body.blocks[bi]["cleanup"]:
+                out.add((bi, si if kind == "assign" else len(body.blocks[bi]["s"])))
+        return out
+
+    def after_blocks(bi, avoid):
+        out = set()
+        for x in body.succ(bi):
+            if x not in avoid:
+                out |= body.reach_from(x, avoid=avoid)
+        return out
+
+    changed = True
+    while changed:
+        changed = False
+        names0 = {l: "s%d" % l for l in sl}
+        probe = StateProv(body, names0)
+        inv = {v: k for k, v in names0.items()}
+        for l, ds in body.defs().items():
+            if l in sl or l == 0 or not body.local_name(l) or 1 <= l <= body.argc:
+                continue
+            live = [d for d in ds if d[0] in reach and not body.blocks[d[0]]["cleanup"]]
+            if len(live) != 1:
+                continue
+            (bd, si, kind, pay) = live[0]
+            if (pay["pl"] if kind == "assign" else pay.get("dest") or {"p": [1]})["p"]:
+                continue
+            sd = si if kind == "assign" else len(body.blocks[bd]["s"])
+            try:
+                t = probe._rvalue(pay["rv"], True) if kind == "assign" else probe._call(pay, True)
+            except Exception:
+                continue
+            from .mir import walk_term
+            read = {inv[x[1]] for x in walk_term(t) if isinstance(x, tuple) and x and x[0] == "var" and x[1] in inv}
+            if not read:
+                continue
+            # Expanding l at a use is unsound only if a state variable it reads can be reassigned after l's definition and
+            # before that use, on a path that does not re-execute the definition (statement granularity within a block:
+            # a statement reads its operands before it writes its target).
+            stale = False
+            us = use_sites(l)
+            from_def = body.reach_from(bd)
+            for sv in read:
+                for (db, di) in def_sites(sv):
+                    if db not in from_def or (db == bd and di <= sd and bd not in after_blocks(bd, ())):
+                        continue
+                    later = after_blocks(db, (bd,))
+                    for (ub, ui) in us:
+                        if (ub == db and ui > di and not (db == bd and di <= sd)) or (ub != db and ub in later) or (ub == db and ui <= di and db in later):
+                            stale = True
+            if stale:
+                sl.append(l)
+                changed = True
     for l in sl:
         bs = [d[0] for d in body.defs().get(l, []) if d[0] in idx and not body.blocks[d[0]]["cleanup"]]
         first_def[l] = min((idx[b] for b in bs), default=10 ** 6)
